@@ -60,6 +60,14 @@ def cases(ctx):
                                          ".dl 0x123456", "lda #0x12", "{\nnop\n}"]))
         out.append({"kind": "moves", "rom": rom, "src": "\n".join(lines) + "\n", "trace": True,
                     "spec": {"t": "blocks", "high": rom == "high"}})
+    # *= to the address just reached (after a relocation to ROM: resolver.pc is then not the storage offset)
+    for rom, a, b in (("low", 0x018000, 0x028000), ("low", 0x808100, 0x038000), ("high", 0x400000, 0x410000)):
+        for n in (1, 3, 16):
+            data = ", ".join(str(i) for i in range(n))
+            out.append({"kind": "org-after-reloc", "rom": rom, "trace": True, "spec": {"t": "blocks", "high": rom == "high"},
+                        "src": f"*={a:#08x}\n.db 0xAA, 0xBB\n@={b:#08x}\nrun:\n.db {data}\nrun_end:\n*=run_end\n.db 0xCC, 0xDD\n"})
+            out.append({"kind": "org-to-label", "rom": rom, "trace": True, "spec": {"t": "blocks", "high": rom == "high"},
+                        "src": f"*={a:#08x}\nfirst:\n.db {data}\nsecond:\n*={b:#08x}\n.db 1\n*=second\n.db 2\n*=first\n.db 3\n"})
     # bank crossing with contiguous file offsets
     for rom, org in (("low", 0x00FFFD), ("low", 0x80FFFE), ("low", 0x6EFFFF), ("high", 0x40FFFC), ("high", 0xC1FFFF)):
         out.append({"kind": "bank-cross", "rom": rom, "trace": True, "spec": {"t": "blocks", "high": rom == "high"},
